@@ -1,0 +1,103 @@
+//go:build verif
+
+// Contracts for govc (contract-based deductive verification, see /verif/DESIGN.md).
+// This file contains comments only; it is compiled only with the build tag
+// `verif` and adds no code to the package.
+
+package json
+
+//@ spec isSpaceB(c) = c == ' ' || c == '\t' || c == '\r' || c == '\n'
+//@ spec ibOK(p, b) = p != nil && 0 <= p.ib && p.ib + len(b) <= 4611686018427387904
+//@ spec capOK(p) = 1 <= p.maxRecursion && p.maxRecursion <= 65536
+
+//@ pool parserPool invariant p.maxRecursion == maxRecursion
+
+//@ func json.(*parserState).reset
+//@   requires p != nil
+//@   assigns p.ib, p.currPath, p.firstToken, p.querySatisfied
+//@   ensures p.ib == 0 && len(p.currPath) == 0 && p.firstToken == TokInvalid && !p.querySatisfied
+
+//@ func json.(*parserState).consumeSpace
+//@   requires ibOK(p, b)
+//@   assigns p.ib
+//@   ensures 0 <= n && n <= len(b)
+//@   ensures [C08_J1] p.ib == old(p.ib) + n
+//@   ensures [spaces] forall j :: 0 <= j && j < n ==> isSpaceB(b[j])
+//@   ensures [maximal] n < len(b) ==> !isSpaceB(b[n])
+//@   loop 1 invariant isSuffixView(b, old(b)) && n == len(old(b)) - len(b) && 0 <= n && p.ib == old(p.ib) + n
+//@   loop 1 invariant [spaces] forall j :: 0 <= j && j < n ==> isSpaceB(old(b)[j])
+//@   loop 1 decreases len(b)
+
+//@ func json.(*parserState).consumeConst
+//@   requires ibOK(p, b)
+//@   assigns p.ib
+//@   ensures result == 0 || result == len(cnst)
+//@   ensures [C08C09_J2] old(p.ib) <= p.ib && p.ib <= old(p.ib) + len(b)
+//@   ensures [C08_J1] result > 0 ==> p.ib == old(p.ib) + result && result <= len(b)
+//@   loop 1 invariant p.ib == old(p.ib) + rangeindex + 1 && rangeindex + 1 <= len(b) && lb == len(b)
+
+//@ func json.(*parserState).consumeString
+//@   requires ibOK(p, b)
+//@   assigns p.ib
+//@   ensures 0 <= n && n <= len(b)
+//@   ensures [C08C09_J2] old(p.ib) <= p.ib && p.ib <= old(p.ib) + len(b)
+//@   ensures [C08_J1] n > 0 ==> p.ib == old(p.ib) + n
+//@   ensures [C09_closed] n > 0 ==> b[n-1] == '"'
+//@   loop 1 invariant 0 <= n && n <= len(b) && p.ib == old(p.ib) + n
+//@   loop 1 decreases len(b) - n
+//@   loop 2 invariant 0 <= n && n <= len(b) && p.ib == old(p.ib) + n && 0 <= j && j <= 4 && n > at(1, n)
+//@   loop 2 decreases 4 - j
+
+//@ func json.(*parserState).consumeNumber
+//@   requires ibOK(p, b)
+//@   assigns p.ib
+//@   ensures 0 <= n && n <= len(b)
+//@   ensures [C08C09_J2] old(p.ib) <= p.ib && p.ib <= old(p.ib) + len(b)
+//@   ensures [C08_J1] n > 0 ==> p.ib == old(p.ib) + n
+//@   loop 1 invariant isSuffixView(b, old(b)) && i == len(old(b)) - len(b) && 0 <= i && p.ib == old(p.ib) + i
+//@   loop 1 decreases len(b)
+//@   loop 2 invariant isSuffixView(b, old(b)) && i == len(old(b)) - len(b) && 0 <= i && p.ib == old(p.ib) + i
+//@   loop 2 decreases len(b)
+//@   loop 3 invariant isSuffixView(b, old(b)) && i == len(old(b)) - len(b) && 0 <= i && p.ib == old(p.ib) + i
+//@   loop 3 decreases len(b)
+
+//@ func json.(*parserState).consumeArray
+//@   requires ibOK(p, b) && capOK(p)
+//@   requires 1 <= lvl && lvl <= p.maxRecursion + 1
+//@   assigns p.ib, p.currPath, p.firstToken, p.querySatisfied
+//@   ensures 0 <= n && n <= len(b)
+//@   ensures [C08C09_J2] old(p.ib) <= p.ib && p.ib <= old(p.ib) + len(b)
+//@   ensures [C08_J1] n > 0 ==> p.ib == old(p.ib) + n
+//@   ensures [C09_closed] n > 0 ==> b[n-1] == ']'
+//@   ensures [C10_stack_grows] len(p.currPath) >= old(len(p.currPath))
+//@   ensures [C10_stack_restored] n > 0 ==> p.currPath == old(p.currPath)
+//@   decreases p.maxRecursion + 2 - lvl, 1
+//@   loop 1 invariant 0 <= n && n <= len(b) && p.ib == old(p.ib) + n
+//@   loop 1 invariant [C10_stack] len(p.currPath) == old(len(p.currPath)) + 1 && p.currPath[:len(p.currPath)-1] == old(p.currPath)
+//@   loop 1 decreases len(b) - n
+
+//@ func json.(*parserState).consumeObject
+//@   requires ibOK(p, b) && capOK(p)
+//@   requires 1 <= lvl && lvl <= p.maxRecursion + 1
+//@   assigns p.ib, p.currPath, p.firstToken, p.querySatisfied
+//@   ensures 0 <= n && n <= len(b)
+//@   ensures [C08C09_J2] old(p.ib) <= p.ib && p.ib <= old(p.ib) + len(b)
+//@   ensures [C08_J1] n > 0 ==> p.ib == old(p.ib) + n
+//@   ensures [C09_closed] n > 0 ==> b[n-1] == '}'
+//@   ensures [C10_stack_grows] len(p.currPath) >= old(len(p.currPath))
+//@   ensures [C10_stack_restored] n > 0 ==> p.currPath == old(p.currPath)
+//@   decreases p.maxRecursion + 2 - lvl, 1
+//@   loop 1 invariant 0 <= n && n <= len(b) && p.ib == old(p.ib) + n
+//@   loop 1 invariant [C10_stack] p.currPath == old(p.currPath)
+//@   loop 1 decreases len(b) - n
+
+//@ func json.(*parserState).consumeAny
+//@   requires ibOK(p, b) && capOK(p)
+//@   requires 0 <= lvl && lvl <= p.maxRecursion + 1
+//@   assigns p.ib, p.currPath, p.firstToken, p.querySatisfied
+//@   ensures 0 <= n && n <= len(b)
+//@   ensures [C08C09_J2] old(p.ib) <= p.ib && p.ib <= old(p.ib) + len(b)
+//@   ensures [C08_J1] (n > 0 && lvl > 0) ==> p.ib == old(p.ib) + n
+//@   ensures [C10_stack_grows] len(p.currPath) >= old(len(p.currPath))
+//@   ensures [C10_stack_restored] (n > 0 && lvl > 0) ==> p.currPath == old(p.currPath)
+//@   decreases p.maxRecursion + 2 - lvl, 0
